@@ -126,6 +126,11 @@ type nodeWorld struct {
 	msgSeq   int
 	sent     map[string]*pb.Message // messages sent by fakes, by id
 	extraOps map[string]func(it Item)
+
+	onFakePub func(fp *fakePeer, m *pb.Message)
+	localHook func(topic string, data []byte, c *call)
+	localMids map[string]string // payload -> message id of local publications (seen by validators)
+	localDelivered map[string]int
 }
 
 func (w *nodeWorld) topicName(i int64) string {
@@ -185,7 +190,7 @@ func gsParamsFromPlan(p *Plan) GossipSubParams {
 
 func newNodeWorld(s *sim) *nodeWorld {
 	p := s.plan
-	w := &nodeWorld{s: s, plan: p, fakes: map[int]*fakePeer{}, appScore: map[peer.ID]float64{}, sent: map[string]*pb.Message{}, extraOps: map[string]func(Item){}, lastDisconnect: map[peer.ID]time.Duration{}, streamsGoneAt: map[peer.ID]time.Duration{}}
+	w := &nodeWorld{s: s, plan: p, fakes: map[int]*fakePeer{}, appScore: map[peer.ID]float64{}, sent: map[string]*pb.Message{}, extraOps: map[string]func(Item){}, localMids: map[string]string{}, localDelivered: map[string]int{}, lastDisconnect: map[peer.ID]time.Duration{}, streamsGoneAt: map[peer.ID]time.Duration{}}
 	w.keyRng = newPrng(p.Seed, "keys")
 	nt := p.ki("ntopics", 1)
 	for i := 0; i < nt; i++ {
@@ -325,6 +330,11 @@ func (v *simValidator) validate(ctx context.Context, from peer.ID, msg *Message)
 	}
 	v.mu.Unlock()
 	call := valCall{val: v.idx, mid: mid, from: from, t: w.s.now(), verdict: verdict, parked: park, local: msg.Local || from == w.n.h.id}
+	if call.local {
+		w.s.mu.Lock()
+		w.localMids[string(msg.GetData())] = mid
+		w.s.mu.Unlock()
+	}
 	if park {
 		_, ok := w.s.park(fmt.Sprintf("val%d|%x", v.idx, shortHash([]byte(mid))), mid, nil, ctx.Done())
 		if !ok {
@@ -524,6 +534,9 @@ func (w *nodeWorld) exec1(it Item) {
 		if fp := w.fake(int(it.a(0))); fp != nil && fp.outAlive() {
 			m := fp.signedMsg(w.topicName(it.a(1)), w.mkData(int(it.a(2))))
 			w.sent[midOf(m)] = m
+			if w.onFakePub != nil {
+				w.onFakePub(fp, m)
+			}
 			fp.send(rpcPub(m))
 		}
 	case "fwd": // [idx, topic, size, author idx] valid message authored by another fake, forwarded by idx
@@ -531,12 +544,18 @@ func (w *nodeWorld) exec1(it Item) {
 		if fp != nil && au != nil && fp.outAlive() {
 			m := au.signedMsg(w.topicName(it.a(1)), w.mkData(int(it.a(2))))
 			w.sent[midOf(m)] = m
+			if w.onFakePub != nil {
+				w.onFakePub(fp, m)
+			}
 			fp.send(rpcPub(m))
 		}
 	case "resend": // [idx, k] forward the k-th most recent known message again from idx
 		if fp := w.fake(int(it.a(0))); fp != nil && fp.outAlive() && len(w.sent) > 0 {
 			ids := w.sentIDs()
 			m := w.sent[ids[int(it.a(1))%len(ids)]]
+			if w.onFakePub != nil {
+				w.onFakePub(fp, m)
+			}
 			fp.send(rpcPub(m))
 		}
 	case "ihave": // [idx, topic, n, unseen]
@@ -654,13 +673,16 @@ func (w *nodeWorld) exec1(it Item) {
 	case "node-pub": // [topic, size]
 		topic := w.topicName(it.a(0))
 		data := w.mkData(int(it.a(1)))
-		s.do("Publish "+topic, func() any {
+		c := s.do("Publish "+topic, func() any {
 			t, err := w.n.topic(topic)
 			if err != nil {
 				return err
 			}
 			return t.Publish(context.Background(), data)
 		})
+		if w.localHook != nil {
+			w.localHook(topic, data, c)
+		}
 		return
 	case "blacklist":
 		if fp := w.fake(int(it.a(0))); fp != nil {
